@@ -178,7 +178,10 @@ fn run_case(rep: &mut Report, args: &Args, cs: u64, sink_kind: &str) {
             Err(_) => panic_msg = Some("thread died".into()),
         }
     }
-    let flush_res = client.flush();
+    // every other run ends with the drop alone: a dropped sink has written what it accepted, flushed or not
+    let final_flush = cs % 2 == 0;
+    let flush_res = if final_flush { client.flush() } else { Ok(()) };
+    rep.obs(if final_flush { "runs_ending_with_flush_then_drop" } else { "runs_ending_with_the_drop_alone" }, 1);
     drop(client);
     // ---- collect the datagram stream ----
     let mut unix_mismatch: Option<String> = None;
